@@ -145,12 +145,13 @@ def vo_cache_switch():
         sh("rsync -a %s/ ./" % src, cwd=COQ)
         # make the generated sources look older than the restored objects
         sh("find Generated -name '*.v' -exec touch -d '2000-01-01' {} +", cwd=COQ)
+        os.utime(src)        # least-recently-USED eviction: the unchanged tree's entry stays while mutants come and go
         log("  [vo cache: restored objects for generated tables %s]" % cur)
     with open(tag, "w") as f:
         f.write(cur)
     # keep the cache small
     ents = sorted((os.path.getmtime(os.path.join(cache, e)), e) for e in os.listdir(cache))
-    for _, e in ents[:-4]:
+    for _, e in ents[:-8]:
         sh("rm -rf %s" % os.path.join(cache, e))
 
 
